@@ -257,6 +257,48 @@ impl<T: Elem> Second<T> {
     }
 }
 
+/// Presents the logical 1-D contents `vals` to `f` as a view in one of several memory layouts
+/// (same logical contents): 0 contiguous, 1 reversed view of reversed storage (stride -1),
+/// 2 every second element of padded storage (stride 2), 3 reversed stepped (stride -2).
+/// `junk(k, x)` supplies the padding element that follows entry `x` at position `k`.
+pub fn present<T: Clone, R>(
+    vals: &[T],
+    il: usize,
+    junk: impl Fn(usize, &T) -> T,
+    f: impl FnOnce(ndarray::ArrayView1<'_, T>) -> R,
+) -> R {
+    use ndarray::{s, Array1};
+    let rev: Vec<T> = vals.iter().rev().cloned().collect();
+    let pad = |src: &Vec<T>| -> Vec<T> {
+        let mut o = Vec::new();
+        for (k, x) in src.iter().enumerate() {
+            o.push(x.clone());
+            o.push(junk(k, x));
+        }
+        o
+    };
+    match il {
+        1 => {
+            let st = Array1::from(rev);
+            f(st.slice(s![..;-1]))
+        }
+        2 => {
+            let st = Array1::from(pad(&vals.to_vec()));
+            f(st.slice(s![..;2]))
+        }
+        3 => {
+            let mut p = pad(&rev);
+            p.pop();
+            let st = Array1::from(p);
+            f(st.slice(s![..;-2]))
+        }
+        _ => {
+            let st = Array1::from(vals.to_vec());
+            f(st.view())
+        }
+    }
+}
+
 /// Offsets (in elements, relative to the parent's first element) of a 1-D view.
 pub fn offsets_1d<T>(base: *const T, ptr: *const T, len: usize, stride: isize) -> Vec<isize> {
     let off = (ptr as isize - base as isize) / (std::mem::size_of::<T>() as isize);
